@@ -122,11 +122,15 @@ SPECS = [
 ]
 
 US = ['--unwindset', 'spec_digit_prefix.0:25,spec_dec_value.0:25,spec_dec_value64.0:21,spec_pos_value64.0:21']
-HARNESSES = [
+LINKS = [Harness('itoa_%s_link_%d' % (sfx, k), 'h_itoa_' + sfx, enforce='from_integer_' + sfx, method='WU(22)', unwind=22, flags=US,
+                 defines=['VX_K=%d' % k], only=[r'ghost: \|value\| == 10'], props=['C04', 'C01'], timeout=600, min_obligations=1,
+                 note='ghost link fact of digit position %d (assumed in the other itoa/lemma harnesses)' % k)
+         for sfx in ('u64', 'i64') for k in range(1, 21)]
+HARNESSES = LINKS + [
     Harness('dec_u64', 'h_dec_u64', enforce='dec_to_integer_u64', method='WU(22)', unwind=22, flags=US, props=['C04', 'C14'], timeout=600),
     Harness('dec_i64', 'h_dec_i64', enforce='dec_to_integer_i64', replace=['dec_to_integer_u64'], method='WU(22)', unwind=22, flags=US, props=['C04'], timeout=600),
-    Harness('itoa_i64', 'h_itoa_i64', enforce='from_integer_i64', method='WU(26)', unwind=22, flags=US, props=['C04', 'C01', 'C08'], timeout=300),
-    Harness('itoa_u64', 'h_itoa_u64', enforce='from_integer_u64', method='WU(26)', unwind=22, flags=US, props=['C04', 'C01', 'C08'], timeout=300),
-    Harness('lemma_int_rt', 'h_int_rt', dfcc=False, method='WU(22)', unwind=22, flags=US, props=['C04', 'C01'], timeout=300,
+    Harness('itoa_i64', 'h_itoa_i64', enforce='from_integer_i64', method='WU(22)', unwind=22, split=True, flags=US, props=['C04', 'C01', 'C08'], timeout=300),
+    Harness('itoa_u64', 'h_itoa_u64', enforce='from_integer_u64', method='WU(22)', unwind=22, split=True, flags=US, props=['C04', 'C01', 'C08'], timeout=300),
+    Harness('lemma_int_rt', 'h_int_rt', dfcc=False, method='WU(22)', unwind=22, flags=US, split=True, props=['C04', 'C01'], timeout=300,
             note='L-INT-RT: dec_to_integer(from_integer(v)) == v for all 2^64 bit patterns, signed and unsigned, real extracted bodies'),
 ]
